@@ -30,10 +30,11 @@ theorem writeHeader_inv (sp : Spec) (hl : sp.LenOk) (s : St) (cl : Bool) (ht : s
   rw [h]; exact hl f fl dl
 
 theorem inv_open (sp : Spec) (hl : sp.LenOk) (stale : Nat) : Inv sp (openW sp stale) := by
-  unfold openW; exact writeHeader_inv sp hl _ false rfl
+  have h := writeHeader_inv sp hl { frames := if sp.zeroFrames then 0 else stale } false rfl
+  unfold openW; exact ⟨h.hlen, h.tail, h.form⟩
 
 theorem open_data (sp : Spec) (stale : Nat) : (openW sp stale).data = [] := by
-  unfold openW; rw [writeHeader_data]
+  unfold openW; simp only [writeHeader_data]
 
 theorem write_data (sp : Spec) (s : St) (enc : List Byte) (auto : Bool) : (write sp s enc auto).data = s.data ++ enc := by
   unfold write
